@@ -226,32 +226,41 @@ impl Node {
         // Step 2. For each child of option's children:
         for child in self.children.borrow().iter() {
             // Step 2.1 Let childClone be the result of running clone given child with subtree set to true.
-            let child_clone = child.clone_with_subtree();
+            let child_clone = child.clone_with_subtree(&selectedcontent);
 
             // Step 2.2 Append childClone to documentFragment.
             document_fragment.push(child_clone);
         }
 
         // Step 3. Replace all with documentFragment within selectedcontent.
-        *selectedcontent.children.borrow_mut() = document_fragment;
+        let old_children = mem::replace(
+            &mut *selectedcontent.children.borrow_mut(),
+            document_fragment,
+        );
+        for old_child in old_children {
+            old_child.parent.set(None);
+        }
     }
 
-    /// Clones the node and all of its descendants, returning a handle to the new subtree.
+    /// Clones the node and all of its descendants as a child of `parent`, returning a handle to
+    /// the new subtree.
     ///
     /// This function will run into infinite recursion when the DOM tree contains cycles and it makes
     /// no attempts to guard against that.
-    fn clone_with_subtree(&self) -> Rc<Self> {
+    fn clone_with_subtree(&self, parent: &Rc<Self>) -> Rc<Self> {
+        let clone = Rc::new(Self {
+            parent: Cell::new(Some(Rc::downgrade(parent))),
+            data: self.data.clone(),
+            children: RefCell::new(Vec::new()),
+        });
         let children = self
             .children
             .borrow()
             .iter()
-            .map(|child| child.clone_with_subtree())
+            .map(|child| child.clone_with_subtree(&clone))
             .collect();
-        Rc::new(Self {
-            parent: Cell::new(self.parent()),
-            data: self.data.clone(),
-            children: RefCell::new(children),
-        })
+        *clone.children.borrow_mut() = children;
+        clone
     }
 }
 
